@@ -52,6 +52,39 @@ CHECKS = {
              "one header + one row per call with the iteration number first. Byte-exact correspondence of the model with files written by the real code; independent decode oracle (xml/base64/struct).",
         ref="§5 C20", technique="Lean 4 proof (induction on byte chunks, parser/printer round trip) + byte-exact correspondence",
         note=NOTE_COMMON + "float64->float32 rounding and Python number formatting are external (bytes/strings are inputs of the model); OS/file system trusted."),
+    "C05": dict(
+        text="Lean theorems over any field with conjugation, any size, any block rhs, every trans in {N,T,H}: each direct solver's authored composition (Diagonal, QR, LU, Cholesky incl. LDL fall-back, "
+             "LDL Hermitian and complex-symmetric with permutation indexing, SparseLU mode pass-through) solves op_trans(A) x = b under the explicit factorisation contract of the scipy routine; "
+             "CG: r = b - A x after every iteration for every preconditioner/restart/rank pattern/initial guess, hence the tolerance exit bounds the true residual; auto_determine_solver returns a class containing A. "
+             "Correspondence: factors read from the REAL solver objects are checked against the contract and fed to the exact model; CG iterates compared; oracle: residuals, shape, dtype on every real result.",
+        ref="§5 C05", technique="Lean 4 proof (matrix algebra under factorisation contracts, loop invariant for CG) + correspondence on real factor objects + residual oracle",
+        note=NOTE_COMMON + "PARTIAL: LAPACK/SuperLU factorisations are contracts checked numerically per case; CG convergence within maxit (cg_correct_partial), orth_span, multigrid partition of unity are observed, not proved. Optional back-ends (pardiso, cholmod, cvxopt, umfpack) are not installed and not covered."),
+    "C06": dict(
+        text="Lean state-machine proof for LDAWrapper over any field with conjugation: get_diagonal_indices is exactly 'decoupled in row AND column'; the storage/conjugation mode table solves the requested system; "
+             "invariant (every stored pair is a solution pair of the current matrix, zero on the diagonal set; flags truthful) holds initially and is preserved by update and solve; for EVERY history and all modes, "
+             "vector/block, each answer is exact when the inner solver ran and otherwise has exactly the residual that passed the tolerance test; update forgets earlier matrices; totality. "
+             "Correspondence on histories against the real wrapper around a counting proxy (x, did_solve, inner-call counts, database sizes, flags, diagonal set), all 3x3 sparsity patterns in the thorough tier.",
+        ref="§5 C06", technique="Lean 4 proof (invariant by induction over update/solve histories, inner solver as contract parameter) + history correspondence with call counting",
+        note=NOTE_COMMON + "PARTIAL: ldas_reuse is proved for a zero remaining rhs; 'rhs in the span of stored rhs => remainder zero' (needs orthogonality in the invariant) and the irrelevance of normalisation are only observed by the call-count correspondence."),
+    "C08": dict(
+        text="Lean theorems for every grid, ndof, bc set, scaling vector: the assembled matrix equals the scaled element sum scattered through the connectivity, zero on bc rows/cols, bcdiagval on their diagonal, plus the constant; "
+             "stiffness symmetric, u^T K u = sum x_e sum_g w eps^T D eps >= 0 (D PSD per plane mode), rigid-body motions in the null space at every integration point, mass total rho V sum x per direction, Poisson constants/linear energy. "
+             "Element matrices evaluated exactly in Q(sqrt 3); correspondence with todense() of the real matrices and element matrices; dense re-assembly and physics oracles on the real code.",
+        ref="§5 C08", technique="Lean 4 proof (sum re-indexing, field algebra, C13 shape-function theorems) + exact/tolerance correspondence",
+        note=NOTE_COMMON + "Mass/Poisson physics theorems are for bc = none without constant; the np.max default of bcdiagval is model + correspondence only."),
+    "C12": dict(
+        text="Lean theorems (2-D and 3-D): B(p) u_e is the engineering strain of G for affine fields at every point; Strain normal components; shear AS CODED (2x engineering shear for voigt=True, with the "
+             "counterexample theorem); Stress = D strain; energy identity for shear-free affine fields; ElementAverage = centroid value; NodalOperation = transpose of ElementOperation; thermal load self-equilibrated "
+             "and = K u_free-expansion for every D. Correspondence with the real modules; oracles for all six sub-claims.",
+        ref="§5 C12", technique="Lean 4 proof (field algebra on shape-function derivatives) + correspondence; one OPEN known finding",
+        note=NOTE_COMMON + "OPEN FINDING strain-voigt-shear-doubled (KNOWN_FINDINGS.txt): the baseline test test_pure_shear pins the doubled shear, so it cannot be repaired; energy_identity is therefore _partial (shear-free fields)."),
+    "C14": dict(
+        text="Lean theorems: direction-string table (all 30 intended forms, all 585 short strings, general characterisation); for every grid/direction/nsampling the base layer is unchanged and every other element is "
+             "smin(x_i, smax(supports in domain)); over R: overshoot <= sqrt(eps)/2, supported solid stays >= 1, unsupported material bound; mirror and in-layer axis-swap equivariance by induction over layers; "
+             "sensitivity loop structure and the three scalar derivative atoms. Float model with bit-exact transport vs the real filter (direction attribute exact, outputs and sensitivities to tolerance); "
+             "independent layer-by-layer oracle and symmetry pairs on the real code.",
+        ref="§5 C14", technique="Lean 4 proof (decide tables, induction over layers, real analysis atoms) + Float-model correspondence + recomputation oracle",
+        note=NOTE_COMMON + "PARTIAL: overhang_sens_is_backprop_partial (loop = reverse passes; per-support increment = seed x true partial) lacks the scatter/gather re-indexing to J^T; cross-axis swap with mapped direction is oracle-only; libm vs numpy pow/log/sqrt to tolerance."),
 }
 
 NOT_APPLICABLE = {
